@@ -90,6 +90,16 @@ CHECKS = {
        'against expanded sets. Category table (terminal, class, field, wildcard constant) is an explicit slot table '
        'in rules/C18.py.',
   ref='DESIGN.md §2 C18'),
+ 'C17': dict(
+  technique='structural (sequence-provenance) analysis of the dask graph construction, positional-processing and '
+            'dataflow checks of the dispatch path, who-may-write and order-preservation rules for the task graph, '
+            'static arity check of all Task(...) sites',
+  text='W1-W5 decide that the tuple stored for each task is (function, *static, *predecessor keys) with per-task '
+       'unique keys, that every rewriting step between the workflow and dask is positional, that replacement and '
+       'insertion keep the declared order/edges, and that no Task passes more static inputs than its function takes '
+       '(65 sites). Exactly-once execution and scheduling order are properties of dask and are not decided.',
+  note='Trusted: dask graph specification (tuple = call), networkx relabel_nodes(copy=True) keeps node order.',
+  ref='DESIGN.md §2 C17'),
 }
 NA = {}
 
